@@ -164,9 +164,39 @@ def test_regex_ops(n=2500, seed=1):
     return n * 8, bad
 
 
+def test_str_methods(n=200, seed=3):
+    """symbolic str methods (partition, rpartition, split/rsplit with maxsplit, replace with count, count, removeprefix/
+    suffix, ljust/rjust/center) against CPython: the world selected by a concrete value must hold CPython's results"""
+    def drv(s, sep, k):
+        return (s.partition(sep), s.rpartition(sep), s.split(sep, k), s.rsplit(sep, k), s.rsplit(sep), s.replace(sep, "<>", k), s.count(sep),
+                s.removeprefix(sep), s.removesuffix(sep), s.ljust(7, "."), s.rjust(7), s.center(8, "*"), s.center(7, "*"),
+                s.find(sep), s.rfind(sep), s.startswith(sep), s.endswith(sep), s.strip("="), s.lstrip("a"), s.split(sep))
+    rnd = random.Random(seed)
+    bad = 0
+    norm = lambda x: tuple(tuple(y) if isinstance(y, (list, tuple)) else y for y in x)
+    for _ in range(n):
+        L = rnd.randint(0, 5)
+        conc = "".join(rnd.choice("ab=") for _ in range(L))
+        sep = rnd.choice(["=", "ab", "a", "=="])
+        k = rnd.choice([-1, 0, 1, 2])
+        eng = Engine()
+        s = eng.sym_str("s", L, "ab=")
+        got = None
+        for W in eng.run(drv, [s, sep, k]):
+            ok, m = eng.query(W, eng.I.models.eq_simple(s, conc))
+            if ok and W.exc is None:
+                got = eng.model_value(m, W.result)
+        exp = drv(conc, sep, k)
+        if got is None or norm(got) != norm(exp):
+            bad += 1
+            if bad < 4:
+                print("str method mismatch on", repr(conc), repr(sep), k, got, exp)
+    return n, bad
+
+
 def main():
     total_bad = 0
-    for name, f in (("regex-model", test_regex), ("regex-operations", test_regex_ops), ("concrete-conformance", test_conformance), ("merge-equivalence", test_merge)):
+    for name, f in (("regex-model", test_regex), ("regex-operations", test_regex_ops), ("str-methods", test_str_methods), ("concrete-conformance", test_conformance), ("merge-equivalence", test_merge)):
         n, bad = f()
         print(f"selftest {name}: {n} cases, {bad} disagreements")
         total_bad += bad
